@@ -1537,8 +1537,14 @@ func (b *Bitmap) ImportRoaringBits(data []byte, clear bool, log bool, rowSize ui
 	// is rejected while b is still unchanged (nothing would be logged for a
 	// partially applied import).
 	for {
-		if _, _, _, _, _, itrErr = itr.Next(); itrErr != nil {
+		itrKey, itrCType, itrN, itrLen, itrPointer, itrErr = itr.Next()
+		if itrErr != nil {
 			break
+		}
+		// The union and difference kernels trust a container's cardinality
+		// and the order of its values; the payload comes off the network.
+		if !importedContainerIsConsistent(itrCType, itrN, itrLen, itrPointer) {
+			return 0, nil, fmt.Errorf("container with key %d has contents that contradict its header", itrKey)
 		}
 	}
 	if itrErr != io.EOF {
@@ -1625,6 +1631,47 @@ func (b *Bitmap) ImportRoaringBits(data []byte, clear bool, log bool, rowSize ui
 	}
 	return changed, rowSet, err
 
+}
+
+// importedContainerIsConsistent reports whether the data a roaring iterator
+// yielded matches the container header: n strictly ascending array values,
+// n bits set in the bitmap, or non-empty ordered disjoint runs covering n
+// values.
+func importedContainerIsConsistent(typ byte, n int, length int, pointer *uint16) bool {
+	switch typ {
+	case containerArray:
+		if length != n {
+			return false
+		}
+		a := (*[1 << 16]uint16)(unsafe.Pointer(pointer))[:length:length]
+		for i := 1; i < len(a); i++ {
+			if a[i-1] >= a[i] {
+				return false
+			}
+		}
+		return true
+	case containerBitmap:
+		bm := (*[bitmapN]uint64)(unsafe.Pointer(pointer))[:bitmapN:bitmapN]
+		count := 0
+		for _, w := range bm {
+			count += int(popcount(w))
+		}
+		return count == n
+	case containerRun:
+		if length == 0 {
+			return false
+		}
+		runs := (*[1 << 16]interval16)(unsafe.Pointer(pointer))[:length:length]
+		count := 0
+		for i, r := range runs {
+			if r.start > r.last || (i > 0 && runs[i-1].last >= r.start) {
+				return false
+			}
+			count += int(r.last-r.start) + 1
+		}
+		return count == n
+	}
+	return false
 }
 
 // unmarshalPilosaRoaring treats data as being encoded in Pilosa's 64 bit
